@@ -89,6 +89,7 @@ func runMODES(e *Env) (*Summary, error) {
 				r := NewRand(e.Seed, "MODES", ix*64+uint64(bs))
 				o := defaultOpts()
 				o.Json = false
+				o.OrderedBetween = true
 				g := NewGen(r, o)
 				q := g.Select()
 				ordered := false
@@ -175,6 +176,12 @@ func runMODES(e *Env) (*Summary, error) {
 						}
 						if b.Outcome() != "ok" {
 							continue // the expanded text may trip a checker restriction the alias form does not: not this property
+						}
+						if strings.HasPrefix(a.Outcome(), "plan:") {
+							// C05 speaks about ACCEPTED queries; a rejected alias form (e.g. an alias defined through another
+							// alias and used in WHERE, which the checker types before the fields are resolved) is C14's subject
+							col.Hist("alias-form-rejected-at-plan-time")
+							continue
 						}
 						x, y := a.Outcome()+" | "+strings.Join(rowsList(a), " ; "), b.Outcome()+" | "+strings.Join(rowsList(b), " ; ")
 						if ordered && a.Outcome() == "ok" {
